@@ -4,6 +4,7 @@ core.Ctx.mc / Ctx.export run one TLC after the other; the model-checking runs an
 check do not depend on each other, so they are started together here (core.run_tlc is a function of its
 arguments) and accounted for - in the order given - exactly as Ctx.mc / Ctx.export would do.
 """
+import os
 from concurrent.futures import ThreadPoolExecutor
 
 from . import core
@@ -27,8 +28,16 @@ def run_jobs(ctx, jobs, timeout=3000):
     def one(job):
         return core.run_tlc(job["module"], job["cfg"], ctx.workdir, workers=job["workers"] or share,
                             coverage=job["coverage"], timeout=timeout)
-    with ThreadPoolExecutor(max_workers=len(jobs)) as pool:
-        results = list(pool.map(one, jobs))
+    # several JVMs at once: a smaller heap bound each (core.run_tlc reads VERIF_XMX; default 8g)
+    xmx = os.environ.get("VERIF_XMX")
+    if xmx is None:
+        os.environ["VERIF_XMX"] = "4g"
+    try:
+        with ThreadPoolExecutor(max_workers=len(jobs)) as pool:
+            results = list(pool.map(one, jobs))
+    finally:
+        if xmx is None:
+            del os.environ["VERIF_XMX"]
     out = []
     for job, res in zip(jobs, results):
         ctx._account(job["what"], job["module"], job["cfg"], res)
